@@ -125,12 +125,19 @@ def coo_dot():
     fn = t2.find_def(t2.parse(COO), 'dot', 'COOData')
     if [a.arg for a in fn.args.args] != ['self', 'x', 'D']:
         raise TranslateError('COOData.dot signature')
-    srcs = [t2.src(s) for s in _nodoc(fn.body)]
-    want = ['y = self.data * x[self.indices[1]]', 'z = np.zeros_like(x)', 'np.add.at(z, self.indices[0], y)',
-            'if D is not None:\n    z[D] = x[D]', 'return z']
-    if srcs != want:
+    srcs = [_norm(t2.src(s)) for s in _nodoc(fn.body)]
+    if len(srcs) != 5 or srcs[0] != 'y = self.data * x[self.indices[1]]' or srcs[2] != 'np.add.at(z, self.indices[0], y)' \
+            or srcs[3] != 'if D is not None: z[D] = x[D]' or srcs[4] != 'return z':
         raise TranslateError('COOData.dot: ' + repr(srcs))
-    return 'Definition gen_coo_dot (c : coo R) (x : list R) (D : list nat) := coo_dot R rO radd rmul c x D.'
+    import re
+    if srcs[1] == 'z = np.zeros_like(x)':
+        rows = 'length x'                                  # square data only
+    elif re.fullmatch(r'z = np\.zeros\(self\.shape\[0\](, dtype=[^()]*(\([^()]*\))?[^()]*)?\)', srcs[1]):
+        rows = 'nth 0 (c_shape c) 0'                       # rectangular data
+    else:
+        raise TranslateError('COOData.dot: allocation of the result: ' + srcs[1])
+    return (f'Definition gen_dot_rows (c : coo R) (x : list R) : nat := {rows}.\n'
+            'Definition gen_coo_dot (c : coo R) (x : list R) (D : list nat) := coo_dot_n R rO radd rmul (gen_dot_rows c x) c x D.')
 
 
 # ------------------------------------------------------------------------------------------ ElementVector
